@@ -553,6 +553,10 @@ func (c *Conn) readRecord() error {
 func (c *Conn) readChangeCipherSpec() error {
 	if c.in.deferredCCS {
 		c.in.deferredCCS = false
+		if c.handBuf.Len() > 0 {
+			// 见 readRecordOrCCS：密钥切换时不得留有尚未处理的握手消息
+			return c.in.setErrorLocked(c.sendAlert(alertUnexpectedMessage))
+		}
 		if err := c.in.changeCipherSpec(); err != nil {
 			return c.in.setErrorLocked(c.sendAlert(err.(alert)))
 		}
@@ -763,6 +767,11 @@ func (c *Conn) readRecordOrCCS(expectChangeCipherSpec bool) error {
 				return nil
 			}
 			if !expectChangeCipherSpec {
+				return c.in.setErrorLocked(c.sendAlert(alertUnexpectedMessage))
+			}
+			// 握手缓冲区中还有尚未处理的握手消息（对端在 CCS 之前发送、与前一条消息同处一条记录的消息）：
+			// 它不得在密钥切换之后被当作 CCS 之后的消息处理，例如在 CCS 之前以明文发送的 Finished（tlcp 同）
+			if c.handBuf.Len() > 0 {
 				return c.in.setErrorLocked(c.sendAlert(alertUnexpectedMessage))
 			}
 			if err := c.in.changeCipherSpec(); err != nil {
